@@ -32,6 +32,7 @@ var regRenderers = []regRenderer{
 	{"default", []string{"--no-color", "reg"}, "default"},
 	{"left-aligned", []string{"--no-color", "reg", "--internal-template-name", "left-aligned"}, "left-aligned"},
 	{"old", []string{"--no-color", "reg", "--use-old-reg-reporter"}, "default"},
+	{"default-in-colour", []string{"reg"}, "default"}, // the plain invocation: escape codes are removed before parsing
 }
 
 // parseSummary parses `summary` output into days whose Totals carry only Pos.
@@ -151,7 +152,7 @@ func checkC02(w *Worker) {
 			x.Violate("C02|"+rd.Name+"|failed", fmt.Sprintf("`%s` failed: %s", c.shell(), r.String()), rep)
 			return
 		}
-		got, err := parseRegister(r.Stdout, rd.Layout)
+		got, err := parseRegister(stripANSI(r.Stdout), rd.Layout)
 		if err != nil {
 			x.Violate("C02|"+rd.Name+"|unparseable", fmt.Sprintf("`%s`: %v\n%s", c.shell(), err, r.Stdout), rep)
 			return
